@@ -263,13 +263,18 @@ class Sim:
         for q, _ in self.funcs:
             f = self.raw_function(sysv, q)
             st = getattr(f, "__ptera_stack__", None)
-            out[q] = {
-                "original": f.__code__ is self.orig_code[q],
-                "count": None if st is None else st.instrument_count,
-                "caps": None
-                if st is None
-                else sorted(c for c in st.captures.values() if c != 0),
-            }
+            # the counters are internals (named by the property's anchors): read them if they
+            # are there, do without if a refactoring renamed them
+            count = getattr(st, "instrument_count", None)
+            caps = getattr(st, "captures", None)
+            try:
+                caps = None if caps is None else sorted(c for c in caps.values() if c != 0)
+            except Exception:
+                caps = None
+            if st is not None and count is None:
+                self.reach("introspection_unavailable:instrument_count")
+            out[q] = {"original": f.__code__ is self.orig_code[q], "count": count, "caps": caps or []
+                      if caps is not None else None}
         return out
 
     def handlers_now(self):
@@ -278,4 +283,8 @@ class Sim:
         cur = HandlerCollection.current.get()
         if cur is None:
             return []
-        return list(cur.handler_pairs)
+        pairs = getattr(cur, "handler_pairs", None)
+        if pairs is None:
+            self.reach("introspection_unavailable:handler_pairs")
+            return None
+        return list(pairs)
